@@ -13,13 +13,15 @@ class Machinery(Exception):
     """failure of the checking machinery itself (exit 2), never a verdict about the code"""
 
 class Ctx:
-    def __init__(self, pid, tier, seed):
+    def __init__(self, pid, tier, seed, replaying=False):
         self.pid, self.tier, self.seed = pid, tier, seed
+        self.replaying = replaying
         self.t0 = time.time()
         self.work = os.path.join(VERIF, ".work", "%s.%d" % (pid, os.getpid()))
         shutil.rmtree(self.work, ignore_errors=True)
         os.makedirs(self.work)
-        shutil.rmtree(os.path.join(VERIF, "replays", pid), ignore_errors=True)     # replay files of earlier runs are stale
+        if not replaying:
+            shutil.rmtree(os.path.join(VERIF, "replays", pid), ignore_errors=True)     # replay files of earlier runs are stale
         self.rng = random.Random(seed)
         self.p1 = []            # model checking runs on the specification
         self.events = []        # recorded implementation events (dicts with tid)
